@@ -16,9 +16,10 @@ TCrash ==
   /\ l <= Len(Rec) /\ Rec[l].k = "Crash" /\ l' = l + 1
   /\ LET e == Rec[l]
          s == ScIndex(e.scenario)
+         st == Steps(s)
          o == [opened |-> e.opened, head_on_chain |-> e.head_on_chain, valid |-> e.valid, converged |-> e.converged]
-     IN /\ e.at \in 1..(Len(Steps(s)) + 1)
-        /\ (e.at <= Len(Steps(s)) => Steps(s)[e.at].l = e.label)      \* bound to the recorded step list
+     IN /\ e.at \in 1..(Len(st) + 1)
+        /\ (e.at <= Len(st) => st[e.at].l = e.label)      \* bound to the recorded step list
         \* Recover's and Redeliver's post-conditions decide the event; a failing event is reported
         \* (one line per event) and the validation continues so that every crash point is decided
         /\ (IF RecoverOK(o) /\ RedeliverOK(o) THEN TRUE ELSE PrintT(<<"CRASHVIOLATION", l>>))
